@@ -1,7 +1,371 @@
-use crate::ctx::Ctx;
-pub fn run_c04(_ctx: &mut Ctx) { unimplemented!() }
-pub fn run_c13(_ctx: &mut Ctx) { unimplemented!() }
-pub fn run_c14(_ctx: &mut Ctx) { unimplemented!() }
-pub fn run_c15(_ctx: &mut Ctx) { unimplemented!() }
-pub fn run_c16(_ctx: &mut Ctx) { unimplemented!() }
-pub fn run_c17(_ctx: &mut Ctx) { unimplemented!() }
+//! C04, C13, C14, C15, C16, C17: in-place trait operations on owned arrays, views and third-party
+//! implementors, judged by `ops::run_op`.
+use crate::ctx::*;
+use crate::elem::*;
+use crate::model::*;
+use crate::ops::*;
+use crate::recv::*;
+
+fn nsel(ctx: &Ctx, miri_q: usize, miri_t: usize, vg: usize, quick: usize, thorough: usize) -> usize {
+    match (ctx.scale, ctx.tier) {
+        (Scale::Miri, Tier::Quick) => miri_q,
+        (Scale::Miri, Tier::Thorough) => miri_t,
+        (Scale::Vg, _) => vg,
+        (Scale::Native, Tier::Quick) => quick,
+        (Scale::Native, Tier::Thorough) => thorough,
+    }
+}
+
+fn default_keys(c: usize, r: usize) -> u32 {
+    ((c * 7 + r * 3) % 5) as u32
+}
+
+/// Receiver placements for a receiver of shape (wc, wr): (recv, parent shape, window)
+fn placements(wc: usize, wr: usize, full: bool) -> Vec<(Recv, (usize, usize), Win)> {
+    let mut v = vec![];
+    v.push((Recv::Owned, (wc, wr), full_win(wc, wr)));
+    v.push((Recv::ThinOwned, (wc, wr), full_win(wc, wr)));
+    v.push((Recv::Direct, (wc, wr), full_win(wc, wr)));
+    if wc > 0 {
+        // interior window
+        v.push((Recv::View, (wc + 2, wr + 2), ((1, 1), (1 + wc, 1 + wr))));
+        v.push((Recv::ThinView, (wc + 3, wr + 1), ((2, 0), (2 + wc, wr))));
+        v.push((Recv::Nested, (wc + 3, wr + 3), ((2, 1), (2 + wc, 1 + wr))));
+        if full {
+            // touching edges
+            v.push((Recv::View, (wc + 1, wr + 1), ((0, 0), (wc, wr))));
+            v.push((Recv::View, (wc + 1, wr + 1), ((1, 1), (1 + wc, 1 + wr))));
+            v.push((Recv::View, (wc, wr), full_win(wc, wr)));
+            v.push((Recv::Nested, (wc, wr), full_win(wc, wr)));
+        }
+    } else {
+        // empty receivers: zero-extent windows at several positions
+        v.push((Recv::View, (0, 0), ((0, 0), (0, 0))));
+        v.push((Recv::View, (3, 2), ((0, 0), (0, 0))));
+        v.push((Recv::View, (3, 2), ((1, 1), (1, 1))));
+        v.push((Recv::View, (3, 2), ((1, 0), (3, 0))));
+        v.push((Recv::View, (3, 2), ((0, 1), (0, 2))));
+        v.push((Recv::ThinView, (3, 2), ((1, 1), (2, 1))));
+        v.push((Recv::Nested, (3, 3), ((1, 1), (1, 2))));
+    }
+    v
+}
+
+fn idx_list(dim: usize) -> Vec<usize> {
+    let mut v: Vec<usize> = (0..=dim + 1).collect();
+    v.push(usize::MAX);
+    v
+}
+
+fn run_ops_both(ctx: &mut Ctx, prop: &str, pshape: (usize, usize), win: Win, recv: Recv, ops: &[Op], keys: &dyn Fn(usize, usize) -> u32, twin: bool, tok: bool) {
+    for op in ops {
+        let oc = OpCase { pshape, win, recv, op: *op, keys, twin };
+        let o = run_op::<Kv>(ctx, &oc);
+        let wsize = ((win.1).0 - (win.0).0, (win.1).1 - (win.0).1);
+        if o != Outcome::Failed {
+            ctx.nontrivial((prop, recv, wsize, pshape, win, *op, o == Outcome::Accepted, "Kv"));
+        }
+        if tok && !op.copy_only() {
+            let o = run_op::<Tok>(ctx, &oc);
+            if o != Outcome::Failed {
+                ctx.nontrivial((prop, recv, wsize, pshape, win, *op, o == Outcome::Accepted, "Tok"));
+            }
+        }
+    }
+}
+
+// ================================================================================================
+// C13
+
+pub fn run_c13(ctx: &mut Ctx) {
+    let n = nsel(ctx, 2, 3, 3, 5, 8);
+    for (wc, wr) in shapes(n) {
+        for (recv, pshape, win) in placements(wc, wr, true) {
+            if !ctx.case(|| format!("C13 recv={:?} shape={}x{} parent={}x{} win={:?}", recv, wc, wr, pshape.0, pshape.1, win)) {
+                if ctx.done() {
+                    return;
+                }
+                continue;
+            }
+            let mut ops = vec![Op::Fill];
+            let ci = idx_list(wc);
+            let ri = idx_list(wr);
+            for &r1 in &ri {
+                for &r2 in &ri {
+                    ops.push(Op::SwapRows(r1, r2));
+                    ops.push(Op::RowPair(r1, r2));
+                }
+            }
+            for &c1 in &ci {
+                for &c2 in &ci {
+                    ops.push(Op::SwapCols(c1, c2));
+                }
+            }
+            for &c1 in &ci {
+                for &r1 in &ri {
+                    for &c2 in &ci {
+                        for &r2 in &ri {
+                            ops.push(Op::Swap((c1, r1), (c2, r2)));
+                        }
+                    }
+                }
+            }
+            run_ops_both(ctx, "C13", pshape, win, recv, &ops, &default_keys, false, true);
+        }
+    }
+}
+
+// ================================================================================================
+// C14
+
+pub fn run_c14(ctx: &mut Ctx) {
+    let n = nsel(ctx, 2, 3, 3, 4, 6);
+    let ncw = nsel(ctx, 2, 2, 3, 4, 5);
+    for (wc, wr) in shapes(n) {
+        for (recv, pshape, win) in placements(wc, wr, false) {
+            if !ctx.case(|| format!("C14 recv={:?} shape={}x{} parent={}x{} win={:?}", recv, wc, wr, pshape.0, pshape.1, win)) {
+                if ctx.done() {
+                    return;
+                }
+                continue;
+            }
+            let mut ops = vec![];
+            for d in [-1isize, 0, 1] {
+                ops.push(Op::CopyFromSlice(d));
+                ops.push(Op::CloneFromSlice(d));
+            }
+            for k in [SrcKind::Owned, SrcKind::View, SrcKind::ViewMut] {
+                for rel in [SizeRel::Same, SizeRel::ColsPlus1, SizeRel::RowsPlus1, SizeRel::Transposed, SizeRel::Flat] {
+                    ops.push(Op::CopyFromToodee(k, rel));
+                    ops.push(Op::CloneFromToodee(k, rel));
+                }
+            }
+            if wc <= ncw && wr <= ncw {
+                // every source rectangle (valid and a ring of invalid ones) x every destination corner
+                for s0 in 0..=wc + 1 {
+                    for s1 in 0..=wr + 1 {
+                        for e0 in 0..=wc + 1 {
+                            for e1 in 0..=wr + 1 {
+                                // keep invalid rectangles to a thin sample: they must all be rejected
+                                let valid = s0 <= e0 && s1 <= e1 && e0 <= wc && e1 <= wr;
+                                if !valid && (s0 + 2 * s1 + 3 * e0 + 5 * e1) % 4 != 0 {
+                                    continue;
+                                }
+                                for d0 in 0..=wc + 1 {
+                                    for d1 in 0..=wr + 1 {
+                                        ops.push(Op::CopyWithin((s0, s1), (e0, e1), (d0, d1)));
+                                    }
+                                }
+                            }
+                        }
+                    }
+                }
+            }
+            run_ops_both(ctx, "C14", pshape, win, recv, &ops, &default_keys, false, true);
+        }
+    }
+}
+
+// ================================================================================================
+// C15
+
+pub fn run_c15(ctx: &mut Ctx) {
+    let n = nsel(ctx, 3, 4, 4, 8, 16);
+    for (wc, wr) in shapes(n) {
+        for (recv, pshape, win) in placements(wc, wr, false) {
+            if wc > 8 && matches!(recv, Recv::Direct | Recv::ThinView) {
+                continue;
+            }
+            if !ctx.case(|| format!("C15 recv={:?} shape={}x{} parent={}x{} win={:?}", recv, wc, wr, pshape.0, pshape.1, win)) {
+                if ctx.done() {
+                    return;
+                }
+                continue;
+            }
+            let mut ops = vec![Op::FlipRows, Op::FlipCols];
+            for mc in idx_list(wc) {
+                for mr in idx_list(wr) {
+                    ops.push(Op::Translate(mc, mr));
+                }
+            }
+            let tok = wc * wr <= 36;
+            run_ops_both(ctx, "C15", pshape, win, recv, &ops, &default_keys, false, tok);
+        }
+    }
+}
+
+// ================================================================================================
+// C16 / C17
+
+fn run_sorts(ctx: &mut Ctx, prop: &'static str, by_row: bool) {
+    let n = nsel(ctx, 2, 3, 3, 5, 6);
+    let nthin = nsel(ctx, 2, 2, 3, 4, 5);
+    for (wc, wr) in shapes(n) {
+        for (recv, pshape, win) in placements(wc, wr, false) {
+            if matches!(recv, Recv::Direct) {
+                continue;
+            }
+            if matches!(recv, Recv::Nested | Recv::ThinView) && (wc > nthin || wr > nthin) {
+                continue;
+            }
+            let line_len = if by_row { wc } else { wr };
+            let nlines = if by_row { wr } else { wc };
+            let npat = 3usize.pow(line_len as u32);
+            // one case per (receiver placement, line index): all tie patterns x variants inside
+            for idx in idx_list(nlines) {
+                if !ctx.case(|| format!("{} recv={:?} shape={}x{} parent={}x{} win={:?} line={}", prop, recv, wc, wr, pshape.0, pshape.1, win, idx)) {
+                    if ctx.done() {
+                        return;
+                    }
+                    continue;
+                }
+                let vars: &[SortVar] = if by_row { &ROW_SORTS } else { &COL_SORTS };
+                let pats: Vec<usize> = if idx < nlines { (0..npat).collect() } else { vec![0, npat / 2] };
+                for pat in pats {
+                    let ws = win.0;
+                    let keys = move |c: usize, r: usize| -> u32 {
+                        // window coordinates of this parent cell
+                        let (wc_, wr_) = (c.wrapping_sub(ws.0), r.wrapping_sub(ws.1));
+                        let (pos, line) = if by_row { (wc_, wr_) } else { (wr_, wc_) };
+                        if line == idx && pos < line_len {
+                            ((pat / 3usize.pow(pos as u32)) % 3) as u32
+                        } else {
+                            ((c * 5 + r * 11) % 7) as u32
+                        }
+                    };
+                    let mut ops = vec![];
+                    for &v in vars {
+                        ops.push(Op::Sort(v, idx, false));
+                        if !v.is_ord() {
+                            ops.push(Op::Sort(v, idx, true));
+                        }
+                    }
+                    let sorted_already = {
+                        let digits: Vec<usize> = (0..line_len).map(|p| (pat / 3usize.pow(p as u32)) % 3).collect();
+                        digits.windows(2).all(|w| w[0] <= w[1])
+                    };
+                    for op in &ops {
+                        let oc = OpCase { pshape, win, recv, op: *op, keys: &keys, twin: matches!(recv, Recv::View | Recv::Nested) };
+                        let o = run_op::<Kv>(ctx, &oc);
+                        if o != Outcome::Failed && (!sorted_already || o == Outcome::Rejected) {
+                            ctx.nontrivial((prop, recv, (wc, wr), *op, pat, "Kv"));
+                        }
+                        if (pat % 3 == 0) || ctx.tier == Tier::Thorough {
+                            let o = run_op::<Tok>(ctx, &oc);
+                            if o != Outcome::Failed && (!sorted_already || o == Outcome::Rejected) {
+                                ctx.nontrivial((prop, recv, (wc, wr), *op, pat, "Tok"));
+                            }
+                        }
+                    }
+                }
+            }
+        }
+    }
+}
+
+pub fn run_c16(ctx: &mut Ctx) {
+    run_sorts(ctx, "C16", true)
+}
+pub fn run_c17(ctx: &mut Ctx) {
+    run_sorts(ctx, "C17", false)
+}
+
+// ================================================================================================
+// C04
+
+/// The operation list for a receiver of size (wc, wr): every operation kind, valid arguments
+/// (exhaustive where cheap, seeded-random otherwise).
+pub fn c04_ops(wc: usize, wr: usize, rng: &mut Rng) -> Vec<Op> {
+    let mut ops = vec![Op::Fill, Op::FlipRows, Op::FlipCols];
+    for r in 0..wr {
+        for c in 0..wc {
+            if (c + r) % 2 == 0 {
+                ops.push(Op::SetCoord(c, r));
+            } else {
+                ops.push(Op::SetRowCol(c, r));
+            }
+        }
+    }
+    for r1 in 0..wr {
+        for r2 in 0..wr {
+            ops.push(Op::SwapRows(r1, r2));
+            if r1 != r2 {
+                ops.push(Op::RowPair(r1, r2));
+            }
+        }
+    }
+    for c1 in 0..wc {
+        for c2 in 0..wc {
+            ops.push(Op::SwapCols(c1, c2));
+        }
+    }
+    for _ in 0..6 {
+        ops.push(Op::Swap((rng.below(wc), rng.below(wr)), (rng.below(wc), rng.below(wr))));
+    }
+    for w in WALKS {
+        ops.push(Op::RowsMut(w));
+        ops.push(Op::CellsMut(w));
+        for c in 0..wc {
+            ops.push(Op::ColMut(c, w));
+        }
+    }
+    ops.push(Op::CopyFromSlice(0));
+    ops.push(Op::CloneFromSlice(0));
+    for k in [SrcKind::Owned, SrcKind::View, SrcKind::ViewMut] {
+        ops.push(Op::CopyFromToodee(k, SizeRel::Same));
+        ops.push(Op::CloneFromToodee(k, SizeRel::Same));
+    }
+    for _ in 0..8 {
+        let s0 = rng.below(wc + 1);
+        let s1 = rng.below(wr + 1);
+        let e0 = rng.range(s0, wc);
+        let e1 = rng.range(s1, wr);
+        let d0 = rng.below(wc - (e0 - s0) + 1);
+        let d1 = rng.below(wr - (e1 - s1) + 1);
+        ops.push(Op::CopyWithin((s0, s1), (e0, e1), (d0, d1)));
+    }
+    for v in ROW_SORTS {
+        for r in 0..wr {
+            ops.push(Op::Sort(v, r, rng.chance(1, 2)));
+        }
+    }
+    for v in COL_SORTS {
+        for c in 0..wc {
+            ops.push(Op::Sort(v, c, rng.chance(1, 2)));
+        }
+    }
+    for mc in 0..=wc {
+        for mr in 0..=wr {
+            ops.push(Op::Translate(mc, mr));
+        }
+    }
+    ops
+}
+
+pub fn run_c04(ctx: &mut Ctx) {
+    let n = nsel(ctx, 2, 3, 3, 5, 7);
+    for (pc, pr) in shapes(n) {
+        if pc == 0 {
+            continue;
+        }
+        for win in windows(pc, pr) {
+            let wc = (win.1).0 - (win.0).0;
+            let wr = (win.1).1 - (win.0).1;
+            if wc == 0 || wr == 0 || (wc == pc && wr == pr) {
+                continue; // need a proper, non-empty sub-rectangle
+            }
+            for recv in [Recv::View, Recv::Nested, Recv::ThinView] {
+                if !ctx.case(|| format!("C04 recv={:?} parent={}x{} win={:?}", recv, pc, pr, win)) {
+                    if ctx.done() {
+                        return;
+                    }
+                    continue;
+                }
+                let mut rng = Rng::from_parts(ctx.seed, ctx.cur_idx, 4);
+                let ops = c04_ops(wc, wr, &mut rng);
+                let keys = |c: usize, r: usize| ((c * 3 + r * 5 + (c * r) % 3) % 4) as u32;
+                run_ops_both(ctx, "C04", (pc, pr), win, recv, &ops, &keys, recv != Recv::ThinView, true);
+            }
+        }
+    }
+}
